@@ -122,7 +122,8 @@ PROPERTIES["C06"] = {
                   "VerifC06GoConstants", "VerifC06JavaConstants", "VerifC06PHPConstants", "VerifC06PythonConstants", "VerifC06TypeScriptConstants",
                   "VerifC06GoStructUnion", "VerifC06JavaStructUnion", "VerifC06PHPStructUnion", "VerifC06PythonStructUnion",
                   "VerifC06GoUnionTwice", "VerifC06JavaUnionTwice", "VerifC06PHPUnionTwice", "VerifC06PythonUnionTwice",
-                  "VerifC06GoIntersectionUnion", "VerifC06JavaIntersectionUnion"],
+                  "VerifC06GoIntersectionUnion", "VerifC06JavaIntersectionUnion",
+                  "VerifC06GoIntConstants", "VerifC06JavaIntConstants", "VerifC06PHPIntConstants", "VerifC06PythonIntConstants"],
                  "internal/zzverif/hchains", test_pkg_name="hchains", needs_leaf=True,
                  quick_entries=["VerifC06Go", "VerifC06Java", "VerifC06PHP", "VerifC06Python", "VerifC06TypeScript",
                   "VerifC06GoSpine", "VerifC06JavaSpine", "VerifC06PHPSpine", "VerifC06PythonSpine",
@@ -130,7 +131,8 @@ PROPERTIES["C06"] = {
                   "VerifC06GoConstants", "VerifC06JavaConstants", "VerifC06PHPConstants", "VerifC06PythonConstants", "VerifC06TypeScriptConstants",
                   "VerifC06GoStructUnion", "VerifC06PythonStructUnion",
                   "VerifC06GoUnionTwice", "VerifC06JavaUnionTwice", "VerifC06PHPUnionTwice", "VerifC06PythonUnionTwice",
-                  "VerifC06GoIntersectionUnion", "VerifC06JavaIntersectionUnion"])],
+                  "VerifC06GoIntersectionUnion", "VerifC06JavaIntersectionUnion",
+                  "VerifC06GoIntConstants", "VerifC06JavaIntConstants", "VerifC06PHPIntConstants", "VerifC06PythonIntConstants"])],
 }
 
 
@@ -173,9 +175,11 @@ PROPERTIES["C04"] = {
                "yaml mode": "one typed pass per file x 11 kinds x {well-formed, member missing, member of another kind}; one veneer rule per file over 10 paths x 4 value shapes x 5 methods"},
     "runs": lambda ctx: [
              Run("chains", ["./internal/zzverif/hchains"], CHAINS_HARNESS,
-                 ["VerifC06Go", "VerifC06Java", "VerifC06PHP", "VerifC06Python", "VerifC06TypeScript", "VerifC06GoSpine", "VerifC06JavaSpine", "VerifC06PHPSpine", "VerifC06PythonSpine"],
+                 ["VerifC06Go", "VerifC06Java", "VerifC06PHP", "VerifC06Python", "VerifC06TypeScript", "VerifC06GoSpine", "VerifC06JavaSpine", "VerifC06PHPSpine", "VerifC06PythonSpine",
+                  "VerifC06GoIntConstants", "VerifC06JavaIntConstants", "VerifC06PHPIntConstants", "VerifC06PythonIntConstants", "VerifC06GoUnionTwice", "VerifC06GoIntersectionUnion", "VerifC06JavaIntersectionUnion", "VerifC06GoConstants", "VerifC06PHPConstants", "VerifC06GoIntersection"],
                  "internal/zzverif/hchains", test_pkg_name="hchains", needs_leaf=True, panics="violation", judge="panic",
-                 quick_entries=["VerifC06Go", "VerifC06Java", "VerifC06PHP", "VerifC06Python", "VerifC06GoSpine", "VerifC06PHPSpine"]),
+                 quick_entries=["VerifC06Go", "VerifC06Java", "VerifC06PHP", "VerifC06Python", "VerifC06GoSpine", "VerifC06PHPSpine",
+                  "VerifC06GoIntConstants", "VerifC06JavaIntConstants", "VerifC06PHPIntConstants", "VerifC06PythonIntConstants", "VerifC06GoUnionTwice", "VerifC06GoIntersectionUnion", "VerifC06JavaIntersectionUnion", "VerifC06GoConstants", "VerifC06PHPConstants", "VerifC06GoIntersection"]),
              Run("compiler", ["./internal/ast/compiler"], COMPILER_HARNESS,
                  ["VerifC07UserPasses", "VerifC05Rename", "VerifC05Prefix", "VerifC05Duplicate", "VerifC05Unspec", "VerifC05ReplaceReference", "VerifC05AllowedObjects"],
                  "internal/ast/compiler", needs_leaf=True, panics="violation", judge="panic", quick_entries=["VerifC07UserPasses", "VerifC05AllowedObjects", "VerifC05Duplicate"]),
@@ -531,9 +535,13 @@ def _add_run(pid, run):
 
 _add_run("C10", Run("constant_union", ["./internal/ast/compiler"], COMPILER_HARNESS, ["VerifC10ConstantUnionDefault"], "internal/ast/compiler", needs_leaf=True, judge="prefix:C10"))
 _add_run("C08", Run("openapi_constraints", ["./internal/openapi"], OPENAPI_HARNESS, ["VerifC08OpenAPIConstraints"], "internal/openapi", needs_leaf=True, judge="prefix:C08"))
+_add_run("C07", Run("output_languages", ["./internal/codegen"], {"internal/codegen/zz_verif_c16_context.go": "harness/pcodegen/zz_verif_c16_context.go"},
+                    ["VerifC07OutputLanguages"], "internal/codegen", needs_leaf=True, judge="prefix:C07"))
+_add_run("C16", Run("language_context", ["./internal/codegen"], {"internal/codegen/zz_verif_c16_context.go": "harness/pcodegen/zz_verif_c16_context.go"},
+                    ["VerifC16Context"], "internal/codegen", needs_leaf=True, judge="prefix:C16"))
 _add_run("C04", Run("yaml_pipeline", ["./internal/codegen"], {"internal/codegen/zz_verif_c20_strict.go": "harness/pcodegen/zz_verif_c20_strict.go",
                                                                    "internal/codegen/zz_verif_c20_docs_pipeline.go": "harness/pcodegen/zz_stub_docs.go"},
-                    ["VerifC04YAMLPipeline"], "internal/codegen", needs_leaf=True, panics="violation", judge="panic"))
+                    ["VerifC04YAMLPipeline"], "internal/codegen", needs_leaf=True, panics="violation", judge="panic", flags=["-hangs"]))
 _add_run("C04", Run("yaml_types", ["./internal/yaml"], {"internal/yaml/zz_verif_c04_yaml.go": "harness/pyaml/zz_verif_c04_yaml.go"}, ["VerifC04YAMLTypes", "VerifC04YAMLVeneers"], "internal/yaml",
                     needs_leaf=True, panics="violation", judge="panic", flags=["-hangs"]))
 _add_run("C03", Run("pipeline_parameters", ["./internal/codegen"], {"internal/codegen/zz_verif_c20_strict.go": "harness/pcodegen/zz_verif_c20_strict.go",
